@@ -27,6 +27,7 @@ class Ctx:
         self.selftest = selftest
         self.t0 = time.time()
         self.workdir = VERIF / ".work" / f"{pid}-{tier}-{os.getpid()}"
+        self._sweep_stale()
         if self.workdir.exists():
             shutil.rmtree(self.workdir)
         self.workdir.mkdir(parents=True)
@@ -49,6 +50,20 @@ class Ctx:
         self.known = self._load_known()
         self._printed_known = set()
         self._viol_sigs = {}
+
+    @staticmethod
+    def _sweep_stale():
+        """Remove work directories left behind by runs whose process is gone."""
+        root = VERIF / ".work"
+        if not root.exists():
+            return
+        for d in root.iterdir():
+            try:
+                pid = int(d.name.rsplit("-", 1)[1])
+            except (IndexError, ValueError):
+                continue
+            if not os.path.exists(f"/proc/{pid}"):
+                shutil.rmtree(d, ignore_errors=True)
 
     # ---------------------------------------------------------------- known findings
     def _load_known(self):
